@@ -7,9 +7,15 @@
    does not depend on the input's key order [`Canonical.Shuffled`, shared with C01]; unknown extra
    fields never cause failure [`Ext`]."
 
-  Also here: which schemas describe a type at all (`WF`) — conditions every derived Rust type meets
-  (distinct field names, a default that the type itself can read, a serialiser that does not skip a
-  value it needs on re-read); the driver re-checks the decidable part on every request.
+  Also here, but NOT specification: `WF`, the side condition on the MODEL's schema language under
+  which the fixpoint and duplicate-key theorems hold. It is defined through the model (`Field.Ok`
+  uses `project`, `TagFixed` inspects the `Schema`); it says which schemas describe a derived Rust
+  type at all (distinct field spellings, a default that the type itself can read, a serialiser that
+  does not skip a value it needs on re-read, idempotent scalar readers, a tagged case that writes its
+  tag, no serialise-only constant in a struct with a catch-all). It is not trusted: the total check
+  `wfb` (`Model/ContentSchemaLeaves.lean`) is proved sound for it (`Lemmas/ContentSchemaWF.lean`) and
+  evaluated by the kernel on every schema extracted from the running code
+  (`Props/C18.lean`, `generated_schemas_wf`).
 -/
 import RumaModel.Model.ContentSchema
 namespace Ruma.ContentSchema
@@ -66,7 +72,7 @@ inductive ExtO : List Field → List (Str × JVal) → List (Str × JVal) → Pr
       ExtO fields ((k, v) :: xs) ((k, w) :: ys)
 end
 
-/-! ### Schemas that describe a type -/
+/-! ### Schemas that describe a type (model-side side condition, discharged by `generated_schemas_wf`) -/
 
 /-- No key selects two fields of the struct, and in particular no two fields are written under the
 same name. -/
@@ -89,6 +95,11 @@ def TagFixed (tag label : Str) (s : Schema) : Prop :=
   ∃ fields keep, s = .obj fields keep ∧ ∃ f, f ∈ fields ∧ f.name = tag ∧ f.req = true ∧ f.ghost = false ∧
     ∃ norm, f.schema = .scalar norm ∧ ∀ a b, norm a = some b → b = .str label
 
+/-- The side condition. `obj`'s last premise: a struct that keeps unknown keys (`#[serde(flatten)]`
+map) has no serialise-only constant (`ghost`, a struct-level `#[serde(tag)]`) — in that combination
+real serde collects the input's occurrence of the tag key into the flatten map and writes the key
+twice, which the model (`known` counts the ghost's name as claimed, so the input's entry is dropped)
+does not reproduce; no modelled type combines the two. -/
 inductive WF : Schema → Prop
   | any : WF .any
   /-- What a scalar type writes back, it reads back unchanged; it writes `null` only for `null`. -/
